@@ -262,6 +262,13 @@ func checkC14(w *World, r *Recorder) propInfo {
 			c14Getter(w, r, get, dom, valid)
 		}
 	}
+	// a value the setter rejects is not stored (the failing paths of the two
+	// lifecycle setters write nothing — C11-Q2 restricted to them): otherwise a
+	// claims object built through setters alone can hold a value that maps to
+	// the invalid state
+	importRules(w, r, checkC11, "C14-rejected", func(o *Oblig) bool {
+		return o.Rule == "C11-Q2" && strings.Contains(o.Construct, "SetSecurityLifeCycle")
+	})
 	r.Floor("C14-map", 1)
 	r.Floor("C14-name", 1)
 	r.Floor("C14-accessor", 4)
